@@ -19,7 +19,7 @@ for t in b["stable_pass"]:
     ids.append("::".join([parts[0] + "/" + parts[1] + ".py"] + parts[2:] + [rest]))
 import os
 env = dict(os.environ, PYTHONPATH=os.path.join(os.getcwd(), "src"))  # import the worktree's genjax, not the installed /repo
-r = subprocess.run(["/venv/bin/python", "-m", "pytest", "-q", "-p", "no:cacheprovider", "--no-cov", "--timeout=900", "-n", "4", *ids], capture_output=True, text=True, env=env)
+r = subprocess.run(["/venv/bin/python", "-m", "pytest", "-q", "-p", "no:cacheprovider", "--no-cov", "--timeout=900", "-n", "6", *ids], capture_output=True, text=True, env=env)
 print(r.stdout.strip().splitlines()[-1])
 PY
 )
